@@ -14,6 +14,10 @@ import (
 // named Alloc). With several declarations of one name the last one declared before pos wins.
 func (x *Exec) localsOf(fr *Frame, st *State, pos token.Pos) func(string) (TV, bool) {
 	return func(name string) (TV, bool) {
+		switch name {
+		case "rangeiter":
+			name = "rangeint.iter"
+		}
 		var best *ssa.Alloc
 		for _, b := range fr.fn.Blocks {
 			for _, in := range b.Instrs {
